@@ -462,6 +462,9 @@ def job_faults(args):
             if known_fault_shape(info, mp_):
                 continue
             lay = random_layout(rng) if rng.random() < 0.5 else None
+            if rng.random() < 0.5 and not info.get("whole_file") and not info["cls"].startswith("duplicate_"):
+                # definitions in another order (callers before / after their callees, structs after their users)
+                mp_ = vgen.permute_definitions(mp_, rng)
             text = vgen.print_program(mp_, lay)
             text = with_leading_lines(rng, mp_, text)
             target = vgen.resolve_target(mp_, info)
@@ -473,6 +476,52 @@ def job_faults(args):
             out.append({"cls": info["cls"], "whole_file": bool(info.get("whole_file")), "prog": mp_, "text": text,
                         "span": [target.get("line"), target.get("end_line", target.get("line"))] if target else None,
                         "res": r, "ext": rx, "nlines": text.count("\n") + 1, "where": info.get("where")})
+        # a character outside the language, as the first or the last thing on the first line of a statement / definition
+        for _ in range(2 if k >= 0 else 0):
+            wp = copy.deepcopy(prog)
+            lay = random_layout(rng) if rng.random() < 0.7 else None
+            text = vgen.print_program(wp, lay)
+            text = with_leading_lines(rng, wp, text)
+            nodes = []
+
+            def walk(n):
+                if isinstance(n, dict):
+                    if "line" in n and "end_line" in n and ("k" in n or "attrs" in n or "body" in n):
+                        nodes.append(n)
+                    for v in n.values():
+                        walk(v)
+                elif isinstance(n, list):
+                    for v in n:
+                        walk(v)
+            walk(wp)
+            if not nodes:
+                continue
+            node = rng.choice(nodes)
+            nl = "\r\n" if "\r\n" in text else "\n"
+            lines = text.split(nl)
+            li = node["line"] - 1
+            if li >= len(lines) or not lines[li].strip() or lines[li].lstrip().startswith("#"):
+                continue
+            ch = rng.choice(["$", "@", "~", "^", "?", "`", ";", "\\", "%", "&", "|"])
+            l = lines[li]
+            ind = len(l) - len(l.lstrip(" "))
+            if rng.random() < 0.7:
+                lines[li] = l[:ind] + ch + rng.choice(["", " "]) + l[ind:]
+                where = "first on the line"
+            else:
+                body = l.split("#")[0].rstrip() if '"' not in l else None
+                if body is None:
+                    continue
+                lines[li] = body + " " + ch + l[len(body):]
+                where = "last on the line"
+            # smallest statement / definition whose lines contain that line
+            inner = min((n for n in nodes if n["line"] <= node["line"] <= n["end_line"]), key=lambda n: n["end_line"] - n["line"])
+            t2 = nl.join(lines)
+            r = run_validator(t2)
+            rx = run_validator(t2, extension=True)
+            out.append({"cls": "illegal_character", "whole_file": False, "prog": wp, "text": t2,
+                        "span": [inner["line"], inner["end_line"]], "res": r, "ext": rx, "nlines": t2.count("\n") + 1,
+                        "where": "%r %s %d" % (ch, where, node["line"])})
         signal.alarm(0)
         return {"seed": seed, "faults": out}
     except CaseTimeout:
